@@ -257,6 +257,20 @@ def main():
         print('translator: wrote %s (%d files)' % (OUT, len(files)))
     else:
         print('translator: %s unchanged (%d files)' % (OUT, len(files)))
+    # the help file: core/matcher.py help_text() reads REPO/matchers.md in text mode; the same text, as code points
+    hp = os.path.join(os.path.dirname(OUT), 'ShippedHelp.v')
+    try:
+        htext = open(os.path.join(REPO, 'matchers.md'), 'r').read()
+    except OSError:
+        htext = None
+    if htext is None:
+        body = 'Definition shipped_help_file : option str := None.'
+    else:
+        body = 'Definition shipped_help_file : option str := Some [%s].' % ';'.join(str(ord(c)) for c in htext)
+    htxt = ('(* GENERATED by harness/translate_protocols.py from matchers.md; do not edit *)\nFrom WD Require Import Base.\nOpen Scope N_scope.\n' + body + '\n')
+    if not os.path.exists(hp) or open(hp).read() != htxt:
+        open(hp, 'w').write(htxt)
+        print('translator: wrote %s' % hp)
 
 
 if __name__ == '__main__':
